@@ -63,7 +63,40 @@ func condGraph(r *hx.Rng) string {
 	return strings.Join(parts, "|")
 }
 
+// all ordered subsets of xs
+func orderedSubsets(xs []string) [][]string {
+	res := [][]string{{}}
+	var rec func(cur []string, used []bool)
+	rec = func(cur []string, used []bool) {
+		for i, x := range xs {
+			if used[i] {
+				continue
+			}
+			used[i] = true
+			next := append(append([]string{}, cur...), x)
+			res = append(res, next)
+			rec(next, used)
+			used[i] = false
+		}
+	}
+	rec(nil, make([]bool, len(xs)))
+	return res
+}
+
+// exhaustive part: every conformance graph over three interfaces (each conforming to an ordered subset
+// of the earlier ones) with every ordered subset as the composite's explicit conformances: 2 * 5 * 16 graphs
+func condAllSmallGraphs(c *hx.Ctx) {
+	for _, c1 := range orderedSubsets([]string{"0"}) {
+		for _, c2 := range orderedSubsets([]string{"0", "1"}) {
+			for _, cs := range orderedSubsets([]string{"0", "1", "2"}) {
+				c.Emit("cond", "conf", "I0:|I1:"+strings.Join(c1, ",")+"|I2:"+strings.Join(c2, ",")+"|S:"+strings.Join(cs, ","))
+			}
+		}
+	}
+}
+
 func genCond(c *hx.Ctx) {
+	condAllSmallGraphs(c)
 	nConf := c.N / 4
 	for i := 0; i < nConf; i++ {
 		c.Emit("cond", "conf", condGraph(c.Rng.Fork()))
